@@ -1,6 +1,6 @@
 SPECIFICATION Spec
 CONSTANTS
- Cases <- DihSmallTbl
+ Cases <- CondSmall
  TISet <- TI_quick
  DefSet <- Def_both
  MissSet <- Miss_both
@@ -11,10 +11,10 @@ CONSTANTS
  DevSpecOrder = FALSE
  DevDefineFirstOnly = FALSE
  DevPairsUntyped = FALSE
- DevTableMacrosKept = TRUE
+ DevTableMacrosKept = FALSE
  DevDefineLazyCond = FALSE
- DevDefineBlockDropped = FALSE
+ DevDefineBlockDropped = TRUE
  DevDefineInactiveKept = FALSE
 INVARIANT LookupAgrees
-INVARIANT ConformsDev
+INVARIANT Conforms
 CHECK_DEADLOCK FALSE
